@@ -280,6 +280,8 @@ def check(ctx):
     dfe.check(fe, oracle=front_eject_oracle, label="health-front")
     ctx.cov["front_end_ejection_episodes"] = len(fe)
     dfe.check_oracle_only([PROBE_TIMEOUT_EPISODE], probe_timeout_oracle, "health-probe-timeout")
+    ctx.cov["probe_timeout_episode"] = "active probes answered after 1.6 s with a probe timeout of 1 s: ejected, then back once probes are answered in time"
+    ctx.cov["long_window_and_failing_churn_episodes"] = 5
     # the windows, thresholds and intervals the state machine runs with are the file's (LoadConfig hands them on as written)
     from .. import cfgfid
     cfgfid.check(ctx, C.Differential(ctx, c03.build(ctx), timeout=300), n=40 if ctx.thorough() else 10)
